@@ -32,10 +32,69 @@ def fmt_terms(terms, limit=3):
     return "|".join(xs[:limit]) if xs else "?"
 
 
-def op_desc(b, S, op):
+def _single_def(b, l):
+    d = None
+    for blk in b.blocks:
+        for s_ in blk["s"]:
+            if s_["k"] == "assign" and not s_["p"]["p"] and s_["p"]["l"] == l:
+                if d is not None:
+                    return None
+                d = s_
+        t_ = blk["t"]
+        if t_["k"] == "call" and not t_["dest"]["p"] and t_["dest"]["l"] == l:
+            return None
+    return d
+
+
+def const_local(b, l, depth=0):
+    """the integer constant a single-definition local holds (through copies), or None"""
+    if depth > 4:
+        return None
+    d = _single_def(b, l)
+    if d is None or d["rv"]["r"] != "use":
+        return None
+    c = mir.const_int(d["rv"]["a"])
+    if c is not None:
+        return c
+    pl = mir.op_place(d["rv"]["a"])
+    if pl is not None and not pl["p"]:
+        return const_local(b, pl["l"], depth + 1)
+    return None
+
+
+def arith_desc(b, S, l, depth=0):
+    """`(x Sub 1)` for a single-definition local computed by +,-,* (checked or not) from described operands, else None"""
+    if depth > 3:
+        return None
+    d = _single_def(b, l)
+    if d is None:
+        return None
+    rv = d["rv"]
+    if rv["r"] == "use":
+        pl = mir.op_place(rv["a"])
+        # `.0` of a checked-arithmetic tuple
+        if pl is not None and len(pl["p"]) == 1 and isinstance(pl["p"][0], dict) and pl["p"][0].get("f") == "0" and pl["p"][0].get("adt") == "(tuple)":
+            return arith_desc(b, S, pl["l"], depth + 1)
+        return None
+    if rv["r"] == "bin" and re.fullmatch(r"(Add|Sub|Mul|Div|Rem)(WithOverflow|Unchecked)?", rv["op"]):
+        a, c = op_desc(b, S, rv["a"]), op_desc(b, S, rv["b"])
+        if a.startswith("local:") and c.startswith("local:"):
+            return None
+        return "(%s %s %s)" % (a, re.sub(r"WithOverflow|Unchecked", "", rv["op"]), c)
+    return None
+
+
+def op_desc(b, S, op, _d=0):
     if "k" in op:
         return op["k"]
     pl = mir.op_place(op)
+    if not pl["p"] and _d < 4:
+        # a temporary that holds a copy of an indexed element: describe the element
+        d0 = _single_def(b, pl["l"])
+        if d0 is not None and d0["rv"]["r"] == "use":
+            p0 = mir.op_place(d0["rv"]["a"])
+            if p0 is not None and any(isinstance(e, dict) and ("idx" in e or "cidx" in e) for e in p0["p"]):
+                return op_desc(b, S, d0["rv"]["a"], _d + 1)
     terms = set(S.vals.get(pl["l"], set()))
     proj = list(pl["p"])
     # a field of a locally built tuple (e.g. `match (a.uid(), b.uid())`): use what was stored in that field
@@ -44,10 +103,25 @@ def op_desc(b, S, op):
     if proj and isinstance(proj[0], dict) and "f" in proj[0] and not sym.is_repo_adt(proj[0].get("adt") or "") and (pl["l"], proj[0]["f"]) in S.vals:
         terms = set(S.vals[(pl["l"], proj[0]["f"])])
         pl = {"l": pl["l"], "p": proj[1:]}
+    idx_suffix = ""
     for e in pl["p"]:
         if isinstance(e, dict) and "f" in e and sym.is_repo_adt(e["adt"]):
             nm = sym.short_adt(e["adt"]) + ("::" + e["v"] if e.get("v") else "") + "." + e["f"]
             terms = {("f", x, nm) for x in terms}
+        elif isinstance(e, dict) and "idx" in e:
+            # element selected by a constant (or constant-valued) index: `buf[0]` and `buf[3]` are different operands
+            c = const_local(b, e["idx"])
+            if c is not None:
+                idx_suffix += "[%s]" % c
+        elif isinstance(e, dict) and "cidx" in e:
+            idx_suffix += "[%s]" % e["cidx"]
+    if idx_suffix:
+        base = fmt_terms(terms) if terms else "local:" + b.locals[pl["l"]]["ty"].replace("std::", "")
+        return base + idx_suffix
+    if not terms and not pl["p"]:
+        ar = arith_desc(b, S, pl["l"])
+        if ar is not None:
+            return ar
     if not terms or "{closure@" in b.locals[pl["l"]]["ty"]:
         ty = b.locals[pl["l"]]["ty"]
         if "{closure@" in ty and not pl["p"]:
@@ -283,6 +357,20 @@ def guard_set(b, S, block, drop_iter=True, _depth=0):
                 for db in (cd[0] if truth else cd[1]):
                     out |= guard_set(b, S, db, drop_iter, _depth + 1)
                 continue
+        if d is not None and not d["p"] and t.get("dty") != "bool" and _depth < 4:
+            srcl = discr_source(b, sb, d)
+            sd = selector_defs(b, resolve_copy(b, srcl)) if srcl is not None else None
+            if sd is not None:
+                vals = [v for v, bb in t["ts"] if bb == taken]
+                if taken == t["o"] and not vals:
+                    vals = [k for k in sd if k not in {v for v, _ in t["ts"]}]
+                hit = False
+                for v in vals:
+                    for db in sd.get(v, []):
+                        out |= guard_set(b, S, db, drop_iter, _depth + 1)
+                        hit = True
+                if hit:
+                    continue
         g = switch_desc(b, S, sb, taken)
         m = re.fullmatch(r"(discr\(.*\)) == ([\w|]+)", g)
         if m and "|" in m.group(2):
@@ -393,6 +481,43 @@ def _loops(b):
 _vf_busy = set()
 
 
+def selector_defs(b, l):
+    """for a local that only ever receives enum values built on the spot (`conv = Some(f)` here, `conv = None` there): variant
+    index -> blocks where that variant is stored; None if some definition is something else"""
+    out = {}
+    nd = 0
+    for bi, blk in enumerate(b.blocks):
+        if blk["cleanup"]:
+            continue
+        for s_ in blk["s"]:
+            if s_["k"] == "assign" and not s_["p"]["p"] and s_["p"]["l"] == l:
+                rv = s_["rv"]
+                if rv["r"] == "agg" and rv.get("kind") == "adt" and rv.get("vi") is not None:
+                    out.setdefault(str(rv["vi"]), []).append(bi)
+                    nd += 1
+                elif rv["r"] == "agg" and rv.get("kind") == "adt" and rv.get("v") is not None:
+                    names = variant_names(rv["adt"])
+                    idx = next((k for k, v in names.items() if v == rv["v"]), None)
+                    if idx is None:
+                        return None
+                    out.setdefault(idx, []).append(bi)
+                    nd += 1
+                else:
+                    return None
+        t_ = blk["t"]
+        if t_["k"] == "call" and not t_["dest"]["p"] and t_["dest"]["l"] == l:
+            return None
+    return out if nd >= 2 else None
+
+
+def discr_source(b, sb, d):
+    """the local whose discriminant the switch operand d (a plain local) holds, if it was read in block sb"""
+    for s_ in reversed(b.blocks[sb]["s"]):
+        if s_["k"] == "assign" and not s_["p"]["p"] and s_["p"]["l"] == d["l"] and s_["rv"]["r"] == "discr" and not s_["rv"]["p"]["p"]:
+            return s_["rv"]["p"]["l"]
+    return None
+
+
 def n_defs(b, l):
     n = 0
     for blk in b.blocks:
@@ -441,6 +566,18 @@ def reach_formula(b, S, block, stack=(), depth=0):
                     lab = vf if truth else neg(vf)
                     rc = reach_formula(b, S, sb, stack + (block,), depth + 1)
                     terms.append(_and(rc, lab))
+                    continue
+        if d is not None and not d["p"] and t.get("dty") != "bool" and depth < 12:
+            srcl = discr_source(b, sb, d)
+            sd = selector_defs(b, resolve_copy(b, srcl)) if srcl is not None else None
+            if sd is not None:
+                vals = [v for v, bb in t["ts"] if bb == taken]
+                if taken == t["o"] and not vals:
+                    vals = [k for k in sd if k not in {v for v, _ in t["ts"]}]
+                alts = [reach_formula(b, S, db, stack + (block, sb), depth + 1) for v in vals for db in sd.get(v, [])]
+                if alts:
+                    lab = alts[0] if len(alts) == 1 else ["or"] + alts
+                    terms.append(lab)
                     continue
         g = switch_desc(b, S, sb, taken)
         lab = _atom(g)
